@@ -21,6 +21,10 @@ RULE = ("operation scripts for a private libdbus client connection (1..4 threads
         "plus multi-blocker scripts: 2..4 threads block (block / send_with_reply_and_block, timeouts none or 20..30 s) on different calls of one "
         "connection, the peer answers all of them in ONE write() in an order of its own and then stays silent - every blocking wait must "
         "return (harness monitor: 5 s after the first one returned; Python kills the harness after 12 s); "
+        "plus re-registration scripts: dbus_connection_set_timeout_functions is called again (same function pointers with other data = another "
+        "main-loop context of the harness, other function pointers, or NULL and back) while calls with 3..60 ms timeouts are outstanding, some "
+        "answered later, some never; timers are fired only from the context libdbus was last given; the harness checks that every timeout "
+        "registered before is registered exactly once, in the new context, afterwards; "
         "plus reply-then-close scripts: the peer answers k>=1 outstanding calls (all, or some of them) in one write() and closes at once while "
         "the client is not reading; the harness reads only after it saw hangup and unread bytes pending on the socket (poll/FIONREAD), observes "
         "through notify / get_completed + steal_reply after dispatching (optionally one blocking wait as first reader) - every answered call "
@@ -266,6 +270,91 @@ def make_rc_case(rng):
             "peer": {"calls": pcalls, "hold": k, "hold_delay": rng.choice([0, 0, 5, 20]), "hold_noise": int(rng.random() < 0.25),
                      "close_after_write": 1, "close": None, "noise": int(rng.random() < 0.3)},
             "rc": {"k": k, "answered": answered, "unanswered": sorted(unanswered), "first_read": first, "blocked": blocked}}
+
+
+# Re-registration cases: dbus_connection_set_timeout_functions() is called again (op M) while calls with short
+# timeouts are outstanding; some of them are answered later by the peer, some never.
+def make_rr_case(rng):
+    n_before = rng.choice([1, 2, 2, 3, 4, 6])
+    n_after = rng.choice([0, 0, 1, 2])
+    two = rng.random() < 0.3                       # a second move later on
+    nthreads = 2 if rng.random() < 0.25 else 1     # the second thread only polls get_completed
+    k = n_before + n_after
+    pcalls = {}
+    maxdelay = 0
+    maxt = 0
+    sends = []
+    follow = {}
+    for c in range(k):
+        r = rng.random()
+        if r < 0.45:
+            acts = []                               # never answered: only the timeout can complete it
+        else:
+            d = rng.choice([0, 2, 5, 10, 20, 40, 70])
+            maxdelay = max(maxdelay, d)
+            acts = [[rng.choice(["ret", "ret", "err"]), d, 0, rng.randint(0, 99)]]
+        pcalls[str(c)] = acts
+        t = rng.choice(TIMEOUTS + [25000, INFINITE]) if (acts and rng.random() < 0.25) else rng.choice(TIMEOUTS)
+        if model.is_finite(t):
+            maxt = max(maxt, t)
+        nflag = rng.choice([0, 1, 1, 2, 2])
+        sends.append("0S%d,%d,%d" % (c, t, nflag))
+        f = []
+        if nflag == 0 and rng.random() < 0.3:
+            f.append("N%d,%d" % (c, rng.randint(0, 1)))
+        for _ in range(rng.randint(0, 2)):
+            f.append("G%d" % c)
+        if rng.random() < 0.4:
+            f.append("T%d" % c)
+        follow[c] = f
+
+    def move():
+        mode = rng.choice([0, 0, 0, 1, 2])
+        return "0M%d,%d" % (mode, rng.choice([0, 0, 500, 3000]) if mode == 2 else 0)
+
+    def pumps(n):
+        out = []
+        for _ in range(n):
+            r = rng.random()
+            out.append("0P%d" % rng.choice([0, 1, 2, 5]) if r < 0.6 else "0F" if r < 0.75 else "0Z%d" % rng.choice([200, 1000, 3000])
+                       if r < 0.9 else "0R0")
+        return out
+
+    ops = sends[:n_before]
+    ops += pumps(rng.choice([0, 0, 1, 2]))          # mostly: nothing has been read or fired before the move
+    ops.append(move())
+    tail = sends[n_before:] + pumps(rng.randint(1, 5))
+    if two:
+        tail.insert(rng.randint(0, len(tail)), move())
+    obs = [o for c in range(k) for o in follow[c]]
+    rng.shuffle(obs)
+    side = []
+    for o in obs:
+        if nthreads == 2 and o[0] == "G" and rng.random() < 0.6:
+            side.append("1" + o)
+            if rng.random() < 0.5:
+                side.append("1Z%d" % rng.choice([200, 1000, 5000]))
+        else:
+            tail.insert(rng.randint(0, len(tail)), "0" + o)
+    if nthreads == 2 and not side:
+        side = ["1Z1000", "1G0"]
+    # an observation op on a call must not precede its send in thread 0's own sequence (wait_call would spin): order them
+    seen, fixed, late = set(), [], []
+    for o in ops + tail:
+        if o[1] == "S":
+            seen.add(int(o[2:].split(",")[0]))
+            fixed.append(o)
+            fixed += [x for x in late if int(x[2:].split(",")[0]) in seen]
+            late = [x for x in late if int(x[2:].split(",")[0]) not in seen]
+        elif o[1] in "NGT" and int(o[2:].split(",")[0]) not in seen:
+            late.append(o)
+        else:
+            fixed.append(o)
+    fixed += late
+    return {"nthreads": nthreads, "ncalls": k, "min_run_ms": 0, "drain_ms": 8000 + maxt, "est_ms": maxt + 100, "peer_ms": maxdelay,
+            "ops": ";".join(fixed + side),
+            "peer": {"calls": pcalls, "hold": 0, "close": None, "noise": int(rng.random() < 0.3)},
+            "rr": {"n_before": n_before, "n_after": n_after, "moves": 2 if two else 1}}
 
 
 def case_line(case):
@@ -781,6 +870,12 @@ def _worker(args):
     step = max(1, len(cases) // n_rc)
     for j in range(n_rc):
         cases.insert(min(len(cases), j * (step + 1) + step // 3), make_rc_case(rng_rc))
+    # re-registration of the timeout functions under outstanding calls, likewise
+    rng_rr = gen.rng_for(seed, PROP, "rr", shard)
+    n_rr = max(1, count // 9)
+    step = max(1, len(cases) // n_rr)
+    for j in range(n_rr):
+        cases.insert(min(len(cases), j * (step + 1) + (2 * step) // 3), make_rr_case(rng_rr))
     rundir = tempfile.mkdtemp(prefix="verif-c17-")
     ses = Session(exe, rundir, flavor)
     try:
@@ -788,6 +883,8 @@ def _worker(args):
             part.evaluations += 1
             part.count("scripts:" + flavor)
             part.count("threads:%d" % case["nthreads"])
+            if case.get("rr"):
+                part.count("rr-cases")
             if case.get("rc"):
                 part.count("rc-cases")
                 part.count("rc-cases:mixed" if case["rc"]["unanswered"] else "rc-cases:all-answered")
@@ -902,6 +999,16 @@ def run(tier, seed, replay=None, scale=1.0):
     # threads were verifiably inside their blocking wait when the peer's single write() happened
     # the peer replies and closes at once, the client reads afterwards: cases run (all answered / mixed), those where the
     # harness verified hangup + unread bytes pending before its first read, answered calls and how they were observed
+    # dbus_connection_set_timeout_functions called again under outstanding calls: cases, moves by kind that really had
+    # timeouts to hand over, and what became of the calls that were outstanding at that moment
+    r.require("rr-cases", 60 if full else 1)
+    r.require("rr-ops-with-outstanding-timeouts:same-functions", 40 if full else 1)
+    r.require("rr-ops-with-outstanding-timeouts:other-functions", 10 if full else 1)
+    r.require("rr-ops-with-outstanding-timeouts:null-and-back", 10 if full else 1)
+    r.require("rr-timeouts-moved", 150 if full else 1)
+    r.require("rr-outstanding-then:local-timeout", 60 if full else 1)
+    r.require("rr-outstanding-then:peer-return", 20 if full else 1)
+    r.require("rr-calls-sent-after-rereg", 20 if full else 1)
     r.require("rc-cases", 60 if full else 1)
     r.require("rc-cases:all-answered", 30 if full else 1)
     r.require("rc-cases:mixed", 8 if full else 1)
